@@ -226,6 +226,11 @@ func (g *gramRun) sentence(s *sentence) {
 	}
 	d0 := digest(n0, false)
 
+	// ---- C08, list clause: the list entry points accept the sentence twice, ';'-separated, with and without a trailing ';'
+	if general != nil && g.want("C08") {
+		g.listClause(s, text0, d0)
+	}
+
 	// ---- shape (C07 for expression sentences; otherwise a model deviation) and spans (C06) -----
 	var xs, rs strings.Builder
 	shapeExpected(s.Root, &xs)
@@ -396,6 +401,53 @@ func (g *gramRun) sentence(s *sentence) {
 	if g.want("C06") && roundTrip {
 		g.sliceChecks(s, text0, n0, d0, spec)
 	}
+}
+
+// listClause: ParseStatements (and ParseDDLs / ParseDMLs for DDL / DML sentences) on "s ; s" and "s ; s ;".
+func (g *gramRun) listClause(s *sentence, text, d0 string) {
+	type listFn struct {
+		name string
+		call func(string) ([]ast.Node, error)
+	}
+	fns := []listFn{{"ParseStatements", func(x string) ([]ast.Node, error) {
+		ns, err := memefish.ParseStatements("", x)
+		return wrapNodes(ns), err
+	}}}
+	switch dirOf(s.Start) {
+	case "ddl":
+		fns = append(fns, listFn{"ParseDDLs", func(x string) ([]ast.Node, error) {
+			ns, err := memefish.ParseDDLs("", x)
+			return wrapNodes(ns), err
+		}})
+	case "dml":
+		fns = append(fns, listFn{"ParseDMLs", func(x string) ([]ast.Node, error) {
+			ns, err := memefish.ParseDMLs("", x)
+			return wrapNodes(ns), err
+		}})
+	}
+	for _, f := range fns {
+		for _, in := range []string{text + " ; " + text, text + " ;\n" + text + " ;"} {
+			var ns []ast.Node
+			var err error
+			ok, pan := safely(func() { ns, err = f.call(in) })
+			switch {
+			case !ok:
+				g.find("C08", "list-panic", s, "plain", in, f.name+" panicked: "+pan)
+			case err != nil:
+				g.find("C08", "list-reject", s, "plain", in, fmt.Sprintf("%s: %v", f.name, err))
+			case len(ns) != 2 || ns[0] == nil || ns[1] == nil || digest(ns[0], false) != d0 || digest(ns[1], false) != d0:
+				g.find("C08", "list-tree", s, "plain", in, f.name+" does not return the sentence's tree twice")
+			}
+		}
+	}
+}
+
+func wrapNodes[T ast.Node](ns []T) []ast.Node {
+	out := make([]ast.Node, 0, len(ns))
+	for _, n := range ns {
+		out = append(out, wrap(n))
+	}
+	return out
 }
 
 // offsetContext parses text behind a prefix and returns the node that corresponds to the sentence's root.
